@@ -80,11 +80,16 @@ def _install_fdd(case):
 
 
 SMALL = {"rows": 4, "cols": 5, "nch": 2, "nmodes": 2, "pert": 0.0, "pnan": 0.25, "pmiss": 0.0, "dup": False, "complex": False,
-         "cluster": False, "empty_col": False, "cov": False, "fscale": 1.0, "seed": 3}
+         "cluster": False, "empty_col": False, "cov": False, "fscale": 1.0, "seed": 3, "empty0": True}
 
 
 def _table(tc):
     t = tables.build(tc)
+    if tc.get("empty0"):
+        # order 0 holds no pole (as in every SSI table)
+        t["Fn"][:, 0] = np.nan
+        t["Xi"][:, 0] = np.nan
+        t["Phi"][:, 0, :] = np.nan
     rng = rng_of(tc["seed"] + 11)
     t["Lab"] = (np.isfinite(t["Fn"]) & (rng.random(t["Fn"].shape) < 0.6)).astype(int)
     return t
@@ -152,6 +157,14 @@ def _play(j, dlg, kind, actions, Fn, freq, real_events):
                     continue
             r = sut(headless.click, dlg, x, y, button)
         else:
+            if kind != "FDD" and a["act"] == "select" and a["shift"] and not np.isfinite(Fn[:, int(np.argmin(np.abs(np.arange(Fn.shape[1]) - y)))]).any():
+                sut(headless.direct_click, dlg, x, y, button)
+                got = state()
+                j.tag("pick-on-empty-order")
+                if not j.check(got is not None and sorted(got, key=_key) == sorted(before, key=_key), "empty-order-pick-changed-selection",
+                               lambda: f"step {step}: a pick at an order without retained poles changed the selection {before} -> {got} (frequencies {list(dlg.sel_freq)}, orders {list(dlg.pole_ind)})"):
+                    return None
+                continue
             r = sut(headless.direct_click, dlg, x, y, button)
         if not j.check(not raised(r), "handler-raises", lambda: f"step {step} {a}: {r!r}"):
             return None
@@ -325,6 +338,8 @@ def _alphabet(kind):
         f0 = sorted(float(v) for v in t["f0"])
         sel = [(f0[1] * 1.01, 3.2), (f0[0] * 0.99, 0.9), (f0[1] * 0.995, 4.1), (f0[0] * 1.02, 2.2)]
     sym = [{"act": "select", "x": x, "y": y, "shift": True} for x, y in sel]
+    if kind != "FDD":
+        sym.append({"act": "select", "x": sel[1][0], "y": 0.1, "shift": True, "empty": True})  # a pick aimed at order 0, which holds no pole
     sym.append({"act": "deselect_one", "x": 5.0, "y": 1.0, "shift": True})
     sym.append({"act": "deselect_nearest", "x": 2.0, "y": 1.0, "shift": True})
     # just right of the midpoint between the first two selected entries (nearer the upper one)
@@ -403,7 +418,7 @@ def _subs():
     out = []
     for kind, nm in (("SSI", "ssi"), ("pLSCF", "plscf"), ("FDD", "fdd")):
         out.append(Sub(f"enumerate_{nm}", judge_dialog, enum=enum_dialog(kind), shards_quick=16, shards_thorough=16,
-                       rule=f"{kind} dialog: every action sequence up to length 3 (quick) / 4 (thorough) over 4 picks, deselect-one, 3 deselect-nearest (one aimed either side of the midpoint of two selected entries) and 3 un-modified actions, handlers called directly"))
+                       rule=f"{kind} dialog: every action sequence up to length 3 (quick) / 4 (thorough) over 4 picks (5 on the stabilisation diagrams: one aimed at the empty order 0), deselect-one, 3 deselect-nearest (one aimed either side of the midpoint of two selected entries) and 3 un-modified actions, handlers called directly"))
     for kind, nm in (("SSI", "ssi"), ("pLSCF", "plscf"), ("FDD", "fdd")):
         out.append(Sub(f"machine_{nm}", judge_dialog, machine_case(kind), quick=32, thorough=3000,
                        rule=f"{kind} dialog: generated tables and up to 6 actions at arbitrary coordinates, dispatched as genuine matplotlib Mouse/Key events"))
